@@ -415,7 +415,7 @@ def check_shift(ctx, rep):
         f = sm[2]
         ret = [n for n in ast.walk(f) if isinstance(n, ast.Return)]
         a = [x.arg for x in f.args.args]
-        sm_ok = len(ret) == 1 and ast.unparse(ret[0].value).replace(' ', '') == f"torch.logsumexp({a[0]}*{a[1]},dim={a[2]},keepdim={a[3]})/{a[1]}"
+        sm_ok = len(ret) == 1 and _is_scaled_logsumexp(ret[0].value, a)
     rep.check('C06.S', 'smooth_max::logsumexp(k·x)/k-along-dim', sm_ok, where(sm[1], sm[2]) if sm else '', None, "smooth_max must be logsumexp(k·x, dim, keepdim)/k")
     # forward
     loops = [n for n in ast.walk(call) if isinstance(n, ast.For) and isinstance(n.target, ast.Tuple) and len(n.target.elts) == 3]
@@ -435,7 +435,7 @@ def check_shift(ctx, rep):
                 fwd, xs = r, b
     Wf = where(d.module, upd)
     x = call.args.args[1].arg
-    xs_ok = xs is not None and ast.unparse(xs).replace(' ', '') in (f"{x}[...,{node}-self.taxa_count:{node}-self.taxa_count+1]",)
+    xs_ok = xs is not None and _is_own_increment(xs, x, node, call)
     tgt_ok = ast.unparse(upd.targets[0]) == f"{hname}[{node}]"
     for reg, label in ((hard, 'k≤0'), (smooth, 'k>0')):
         r = fwd.get(reg)
@@ -523,6 +523,51 @@ def run(ctx, rep):
 # ---------------------------------------------------------------------------
 # C06.C — date conventions: every place that turns sampling dates into heights follows one convention
 # ---------------------------------------------------------------------------
+def _is_scaled_logsumexp(v, a):
+    """`torch.logsumexp(x * k, dim, keepdim) / k` in any of its spellings (operands of the product in either order, method or function form, positional or keyword dim / keepdim)"""
+    x, k, dim, keep = a[:4]
+    if not (isinstance(v, ast.BinOp) and isinstance(v.op, ast.Div) and isinstance(v.right, ast.Name) and v.right.id == k and isinstance(v.left, ast.Call)):
+        return False
+    c = v.left
+    fn_form = ast.unparse(c.func) == 'torch.logsumexp'
+    meth_form = isinstance(c.func, ast.Attribute) and c.func.attr == 'logsumexp' and not fn_form
+    if not (fn_form or meth_form):
+        return False
+    operand = (c.args[0] if c.args else None) if fn_form else c.func.value
+    rest = list(c.args[1:]) if fn_form else list(c.args)
+    kw = {q.arg: q.value for q in c.keywords}
+    d = rest[0] if rest else kw.get('dim')
+    kd = rest[1] if len(rest) > 1 else kw.get('keepdim')
+    prod = isinstance(operand, ast.BinOp) and isinstance(operand.op, ast.Mult) and {ast.unparse(operand.left), ast.unparse(operand.right)} == {x, k}
+    return bool(prod) and d is not None and ast.unparse(d) == dim and kd is not None and ast.unparse(kd) == keep
+
+
+def _is_own_increment(xs, x, node, fn):
+    """the increment added to a node's height is the node's own entry of x, with its axis kept: `x[..., i:i+1]` or `x[..., i].unsqueeze(-1)` with i = node − taxa_count"""
+    from fractions import Fraction
+    from sa.util import linear_in, local_assignments
+    defs = local_assignments(fn)
+    sym = {node: 'node', 'self.taxa_count': 'T'}
+    want = {'node': Fraction(1), 'T': Fraction(-1)}
+
+    def clean(v):
+        return None if v is None else {k_: c for k_, c in v.items() if c != 0}
+    if isinstance(xs, ast.Call) and isinstance(xs.func, ast.Attribute) and xs.func.attr == 'unsqueeze' and len(xs.args) == 1 and ast.unparse(xs.args[0]) == '-1':
+        inner = xs.func.value
+        if isinstance(inner, ast.Subscript) and isinstance(inner.value, ast.Name) and inner.value.id == x and isinstance(inner.slice, ast.Tuple) and len(inner.slice.elts) == 2 \
+                and isinstance(inner.slice.elts[0], ast.Constant) and inner.slice.elts[0].value is Ellipsis and not isinstance(inner.slice.elts[1], ast.Slice):
+            return clean(linear_in(inner.slice.elts[1], sym, defs)) == want
+        return False
+    if isinstance(xs, ast.Subscript) and isinstance(xs.value, ast.Name) and xs.value.id == x and isinstance(xs.slice, ast.Tuple) and len(xs.slice.elts) == 2 \
+            and isinstance(xs.slice.elts[0], ast.Constant) and xs.slice.elts[0].value is Ellipsis and isinstance(xs.slice.elts[1], ast.Slice):
+        sl = xs.slice.elts[1]
+        if sl.lower is None or sl.upper is None or sl.step is not None:
+            return False
+        lo, hi = clean(linear_in(sl.lower, sym, defs)), clean(linear_in(sl.upper, sym, defs))
+        return lo == want and hi == {**want, 1: Fraction(1)}
+    return False
+
+
 def date_convention_table(fn: ast.FunctionDef):
     """{(min_is_zero, max_is_zero): set of formula classes stored as a tip height}, by partial evaluation of the tests on min(dates) / max(dates) for the four sign
     cases.  Formula classes: 'date' (the date itself), 'max-date' (most recent date minus the date), 'zero'."""
